@@ -789,6 +789,49 @@ def call_closure(E, st, fr, bi, fval, fty, args):
     return E.call(st, fr, bi, inst, list(args), rty)
 
 
+
+def m_array_map(E, st, fr, bi, callee, args, dest_ty):
+    """<[T; N]>::map(f): apply the closure to each distinguished element in order (N small and constant)"""
+    arr = args[0]
+    if type(arr) is not Sq:
+        return None
+    n = st.const(arr.len)
+    if n is None or n > 16:
+        return None
+    tys = fn_generic_types(callee)
+    fty = None
+    for t in tys:
+        if E.prog.ty(t).tag in ("Closure", "FnDef", "FnPtr"):
+            fty = t
+    if fty is None:
+        return None
+    states = [([], st)]
+    for i in range(n):
+        item = arr.head[i] if arr.head and i in arr.head else arr.elem
+        nxt = []
+        for acc, s in states:
+            with pinned(E.ctx, arr, args[1], *acc):
+                for r, s2 in call_closure(E, s, fr, bi, args[1], fty, [item]):
+                    nxt.append((acc + [r], s2))
+        states = nxt
+        if len(states) > 8:
+            raise Unsupported("array::map: too many closure outcomes")
+    outs = []
+    for acc, s in states:
+        elem = None
+        for x in acc:
+            elem = x if elem is None else E.join_vals(s, elem, x)
+        outs.append((Sq(elem if elem is not None else BOT, E.ctx.const_int(s, n, E.ctx.usize_ty()), {i: x for i, x in enumerate(acc)}, None), s))
+    return outs
+
+
+def m_array_clone(E, st, fr, bi, callee, args, dest_ty):
+    v = deref2(E, st, args[0])
+    if type(v) is Sq:
+        return ret1(v, st)
+    return None
+
+
 def iter_arg(E, st, v):
     v = deref2(E, st, v)
     if type(v) is Md and v.kind == "iter":
@@ -1000,6 +1043,22 @@ def m_iter_sum(E, st, fr, bi, callee, args, dest_ty):
     with pinned(E.ctx, n, it):
         item = it_elem(E, st, fr, bi, it)
     if t.tag == "Float":
+        c = st.const(n)
+        if c is not None and 1 <= c <= 8:
+            # exact small case: fold the terms in order, keeping the symbolic expression
+            cur, s, acc = it, st, None
+            okk = True
+            with pinned(E.ctx, n, it):
+                for _ in range(c):
+                    with pinned(E.ctx, cur):
+                        outs = [o for o in it_next(E, s, fr, bi, cur) if o[0] is not None]
+                    if len(outs) != 1 or type(outs[0][0]) is not Fl:
+                        okk = False
+                        break
+                    x, cur, s = outs[0]
+                    acc = x if acc is None else E.float_binop(s, "Add", acc, x, dest_ty)
+            if okk and acc is not None:
+                return ret1(acc, s)
         return ret1(Fl(-INF, INF, True, ("sum", getattr(item, "tag", None))), st)
     if item is None:
         return ret1(E.ctx.const_int(st, 0, dest_ty), st)
@@ -1464,6 +1523,19 @@ def m_box_new_uninit(E, st, fr, bi, callee, args, dest_ty):
     return ret1(Md("box", {"ptr": Pt(key, (), True), "uninit": True}), st)
 
 
+def m_box_new(E, st, fr, bi, callee, args, dest_ty):
+    """Box::new(x): a fresh heap cell per allocation (numbered within the state, so two live boxes from one
+    site stay distinct); the Box value is the model `box` that Deref / transmute-to-pointer understand"""
+    n = 0
+    while ("h", "box", fr.id, bi, n) in st.store:
+        n += 1
+        if n > 64:
+            raise Unsupported("Box::new: more than 64 live allocations from one site")
+    key = ("h", "box", fr.id, bi, n)
+    st.store[key] = args[0]
+    return ret1(Md("box", {"ptr": Pt(key, (), True)}), st)
+
+
 def m_box_into_vec(E, st, fr, bi, callee, args, dest_ty):
     b = args[0]
     if type(b) is not Md or b.kind != "box":
@@ -1580,7 +1652,10 @@ def build(ctx):
     A(r"^<.*Shake256Core> as sha3::digest::ExtendableOutput>::finalize_xof$", m_shake_finalize)
     A(r"^<.*Shake256ReaderCore> as sha3::digest::XofReader>::read$", m_xof_read)
     A(r"^std::boxed::Box::<\[.*\]>::new_uninit$", m_box_new_uninit)
+    A(r"^std::boxed::Box::<.*>::new$", m_box_new)
     A(r"^std::boxed::box_assume_init_into_vec_unsafe::<", m_box_into_vec)
+    A(r"^(core|std)::array::<impl \[.*\]>::map::<", m_array_map)
+    A(r"^<.* as (core|std)::array::SpecArrayClone>::clone::<", m_array_clone)
     A(r"^<.* as std::iter::IntoIterator>::into_iter$", m_identity)
     A(r"^<falcon_rust::falcon_field::Felt as falcon_rust::cyclotomic_fourier::CyclotomicFourier>::(fft|ifft)$", m_transform_assumed)
     return M
